@@ -243,6 +243,7 @@ class SimPopen:
             sim.clock.advance(max(0.0, timeout))
             self._remaining -= max(0.0, timeout)
             sim.ev('timeout', tag=self.tag, n=self.rec['n'], timeout=timeout, t=sim.clock.now)
+            self.rec['timed_out'] = True
             raise subprocess.TimeoutExpired(self.args, timeout)
         else:
             sim.clock.advance(self._remaining)
@@ -254,6 +255,12 @@ class SimPopen:
             elif 'stdout' in self._pipes:
                 self._pipes['stdout'] += late
         return self._finish(self._exit_code())
+
+    def is_running_straggler(self) -> bool:
+        """A child that keeps working in its current directory for as long as nobody stops it."""
+        if self._b.get('leaves_a_writing_descendant') and not self.rec.get('spawn_error'):
+            return True  # a background process of its own that Exactly knows nothing about (and can not stop)
+        return bool(self._b.get('straggler')) and self.returncode is None and not self._killed and not self._terminated
 
     def _exit_code(self) -> int:
         seq = self._b.get('exit_by_invocation')  # a program that ends differently each time it is run
